@@ -2,14 +2,12 @@
 (* Trace judge for FzfScreen.  One record per settle point of a real session (tmux pane W x H, real fzf built     *)
 (* with -tags verif): the state logged by the last term.* hook event, the result list logged by the last          *)
 (* term.list event, the configuration, and the screen captured from the terminal emulator.                        *)
-(*   r = [w, h, wide, zero, cfg, st, maxItems, orig, rows, scrolled]                                               *)
-(*     st    = [input, cx, list, texts, sel, multi, cy, offset, count]   (FzfScreen's state record)                *)
+(*   r = [w, h, wide, zero, cfg, st, maxItems, orig, rows]                                                         *)
+(*     st    = [input, cx, xoffset, list, texts, sel, multi, cy, offset, count]   (FzfScreen's state record)       *)
 (*     orig  : the input records of the listed items (items never change after they have been read)               *)
 (*     rows  : the captured screen, top to bottom, one text (sequence of cells) per row, trailing blanks removed   *)
-(*     scrolled : some earlier query of the session was longer than the prompt line                               *)
-(* Verdict: the screen is exactly Render(st, geometry, cfg) whenever the query fits on the prompt line; for a     *)
-(* longer query (horizontal scrolling of the prompt is history dependent) every row but the prompt row is exact    *)
-(* and the documented claims hold for the prompt row.                                                              *)
+(* Verdict: the screen is exactly Render(st, geometry, cfg).  Only where an inline info text has no room left      *)
+(* beside the query (its clipping is not modelled) the prompt row is held to the documented claims alone.          *)
 EXTENDS FzfScreen, Json, IOUtils
 
 TraceLog == ndJsonDeserialize(IOEnv.TRACE)
@@ -19,7 +17,7 @@ JInit == l \in 1..(IF Len(TraceLog) < Shards THEN Len(TraceLog) ELSE Shards)
 JNext == l + Shards <= Len(TraceLog) /\ l' = l + Shards
 
 G(r) == [w |-> r.w, h |-> r.h, wide |-> Range(r.wide), zero |-> Range(r.zero)]
-ExactDomain(r, s, g, c) == ~r.scrolled /\ QueryFits(s, g, c) /\ (InlineInfo(c) => InfoFits(s.input, s, g, c))
+ExactDomain(s, g, c) == InlineInfo(c) => InfoFits(QShown(s, g, c), s, g, c)
 
 Verdict(r) ==
     LET g == G(r)
@@ -27,13 +25,14 @@ Verdict(r) ==
         s == r.st
         R == Render(s, g, c)
     IN IF r.st.texts # r.orig THEN "items"
+       ELSE IF ~(0 <= s.xoffset /\ s.xoffset <= s.cx /\ s.cx <= Len(s.input)) THEN "xoffset"
        ELSE IF r.maxItems # MaxItems(g, c) THEN "maxitems"
        ELSE IF Len(r.rows) # g.h THEN "height"
-       ELSE IF ExactDomain(r, s, g, c)
-            THEN (IF r.rows = R THEN "ok" ELSE "exact " \o FailedClaims(r.rows, s, g, c, r.scrolled))
+       ELSE IF ExactDomain(s, g, c)
+            THEN (IF r.rows = R THEN "ok" ELSE "exact " \o FailedClaims(r.rows, s, g, c))
             ELSE IF \A i \in 1..g.h : SlotAt(i - 1, g, c).kind = "prompt" \/ r.rows[i] = R[i]
-                 THEN (IF ClaimsS(r.rows, s, g, c, r.scrolled) THEN "ok" ELSE "claims " \o FailedClaims(r.rows, s, g, c, r.scrolled))
-                 ELSE "exact " \o FailedClaims(r.rows, s, g, c, r.scrolled)
+                 THEN (IF Claims(r.rows, s, g, c) THEN "ok" ELSE "claims " \o FailedClaims(r.rows, s, g, c))
+                 ELSE "exact " \o FailedClaims(r.rows, s, g, c)
 DiffRows(r) == LET R == Render(r.st, G(r), r.cfg) IN
                {i \in 1..Min2(Len(r.rows), r.h) : r.rows[i] # R[i]}
 RECURSIVE CatFrom(_, _)
